@@ -2315,3 +2315,15 @@ V("C01", "lazy_type_group_resolved_once", "fire", "R01.y", (U, "    def __instan
 V("C01", "benign_lazy_type_group_in_a_local", "benign", None, (U, "    def __instancecheck__(cls, inst):\n        return isinstance(inst, tuple(cls.types()))", "    def __instancecheck__(cls, inst):\n        members = tuple(cls.types())\n        return isinstance(inst, members)"))
 V("C15", "calendar_date_written_with_the_iso_year", "fire", "R15.b", (P, "        return value.strftime(\"%Y-%m-%d\")\n\n    @classmethod\n    def deserialize(cls, value):\n        if value == 'null' or value is None:\n            return None\n        return dt.datetime.strptime(value, \"%Y-%m-%d\").date()", "        return value.strftime(cls._fmt)\n\n    _fmt = \"%G-%m-%d\"\n\n    @classmethod\n    def deserialize(cls, value):\n        if value == 'null' or value is None:\n            return None\n        return dt.date.fromisoformat(value)"))
 V("C15", "benign_calendar_date_format_as_a_class_constant", "benign", None, (P, "        return value.strftime(\"%Y-%m-%d\")\n\n    @classmethod\n    def deserialize(cls, value):\n        if value == 'null' or value is None:\n            return None\n        return dt.datetime.strptime(value, \"%Y-%m-%d\").date()", "        return value.strftime(cls._fmt)\n\n    _fmt = \"%Y-%m-%d\"\n\n    @classmethod\n    def deserialize(cls, value):\n        if value == 'null' or value is None:\n            return None\n        return dt.date.fromisoformat(value)"))
+# --- round m, more benign twins
+V("C02", "benign_class_level_copy_through_a_temporary", "benign", None, (Z, "                parameter = copy.copy(parameter)\n                parameter.owner = mcs\n                type.__setattr__(mcs,attribute_name,parameter)", "                own = copy.copy(parameter)\n                own.owner = mcs\n                parameter = own\n                type.__setattr__(mcs,attribute_name,parameter)"))
+V("C16", "benign_range_ends_zipped_the_other_way", "benign", None, (P, "        for bound, v in zip(['lower', 'upper'], val):\n            too_low", "        for v, bound in zip(val, ['lower', 'upper']):\n            too_low"))
+V("C01", "benign_range_ends_zipped_the_other_way", "benign", None, (P, "        for bound, v in zip(['lower', 'upper'], val):\n            too_low", "        for v, bound in zip(val, ['lower', 'upper']):\n            too_low"))
+V("C11", "benign_update_state_tests_reordered", "benign", None, (P, "        if self.check_on_set is False and self.default is not None:\n            self._ensure_value_is_in_objects(self.default)", "        if self.default is not None and self.check_on_set is False:\n            self._ensure_value_is_in_objects(self.default)"))
+V("C18", "benign_range_from_locals", "benign", None, (P, "        return _named_objs(self._objects, self.names)", "        objects, names = self._objects, self.names\n        return _named_objs(objects, names)"))
+V("C19", "benign_read_never_forces_explicitly", "benign", None, (P, "        else:\n            return self._produce_value(gen)\n", "        else:\n            return self._produce_value(gen, force=False)\n"))
+V("C01", "benign_label_assignment_index_inline", "benign", None, (P, "                old = self._parameter.names[index]\n                idx = self.index(old)\n                super().__setitem__(idx, object)", "                idx = self.index(self._parameter.names[index])\n                super().__setitem__(idx, object)"))
+V("C18", "benign_label_assignment_index_inline", "benign", None, (P, "                old = self._parameter.names[index]\n                idx = self.index(old)\n                super().__setitem__(idx, object)", "                idx = self.index(self._parameter.names[index])\n                super().__setitem__(idx, object)"))
+V("C14", "benign_update_assigns_through_a_local_target", "benign", None, (Z, "                    raise ValueError(f\"{k!r} is not a parameter of {self_.cls.__name__}\")\n                setattr(self_or_cls, k, v)", "                    raise ValueError(f\"{k!r} is not a parameter of {self_.cls.__name__}\")\n                target = self_or_cls\n                setattr(target, k, v)"))
+V("C20", "str_printer_with_hand_made_quoting", "fire", "R20.r", (Z, "script_repr_reg[float] = float_script_repr\n", "script_repr_reg[float] = float_script_repr\nscript_repr_reg[str] = lambda_free_str_repr\n"), (Z, "script_repr_reg[list] = container_script_repr\n", "def lambda_free_str_repr(value,imports,prefix,settings):\n    return '\"' + value.replace('\"', '\\\\\"') + '\"'\n\nscript_repr_reg[list] = container_script_repr\n"))
+V("C20", "benign_str_printer_that_is_repr", "benign", None, (Z, "script_repr_reg[float] = float_script_repr\n", "script_repr_reg[float] = float_script_repr\nscript_repr_reg[str] = plain_str_repr\n"), (Z, "script_repr_reg[list] = container_script_repr\n", "def plain_str_repr(value,imports,prefix,settings):\n    return repr(value)\n\nscript_repr_reg[list] = container_script_repr\n"))
